@@ -32,6 +32,24 @@ CHECKS: dict[str, dict] = {
     ),
 }
 
+CHECKS["C13"] = dict(
+    built=True,
+    category="model_checking",
+    technique="TLA+ spec J2O_Host checked exhaustively by TLC; -simulate behaviours replayed through the real context managers; real to_onnx histories with fault injection validated as traces by J2O_HostTrace",
+    text=(
+        "J2O_Host models every step of the x64 managers, ref-counted function patches, leaf patch frames (LIFO, delete-if-missing), "
+        "world activation for tracing and for function-body builds, with failure possible at every patch application, in the body, in lowering "
+        "and post-processing, nested conversions included; TLC checks Quiescent/NoLeakOutsideWorlds/RefCounts/FlagInBody exhaustively. "
+        "Hundreds of simulated behaviours are stepped through the REAL _temporary_x64/_force_jax_x64/_activate_plugin_worlds/"
+        "_activate_full_plugin_worlds_for_body/apply_monkey_patches/apply_patches with recording targets, the abstract state compared at every event. "
+        "Real conversions (request kinds derived from the spec behaviours, faults injected at the k-th real patch application incl. all duplicate-key slots) "
+        "are observed with whole-namespace snapshots, flag, ref-count table, ContextVar, pytree digests and behavioural probes; the Begin/End traces are validated by TLC."
+    ),
+    note="Trusted: TLC, the snapshot covers callables/classes/modules/descriptors of imported jax*/flax*/equinox* modules and their classes; AssignSpec patches cannot be fault-injected. One listed known finding (jit trace cache).",
+    design_ref="DESIGN.md §2 J2O_Host, §3 C13",
+    engine="tlc+replay+trace-validation",
+)
+
 TITLES = {}
 for line in (VERIF / "properties.jsonl").read_text().splitlines():
     if line.strip():
